@@ -579,6 +579,31 @@ class Engine:
         for key in list(con.ghost_return_at) + list(con.dead):
             if not ret_ok(key):
                 out.append('site %s' % key)
+        # locals named by loop invariants / site assertions must still be locals of the function (a renamed local makes the clause meaningless, not false)
+        known = set(assigned) | {'G', 'result', 'self', 'i_', 'True', 'False', 'None', 'params'}
+        known |= set(self.repo.consts) | set(self.repo.funcs) | set(self.repo.classes) | set(getattr(self.dom, 'spec_consts', {}) or {}) | set(getattr(self.dom, 'spec_names', ()) or ())
+        for n in ast.walk(fi.node):
+            if isinstance(n, ast.Name) and isinstance(n.ctx, ast.Store):
+                known.add(n.id)
+            elif isinstance(n, (ast.Import, ast.ImportFrom)):
+                known |= {(a.asname or a.name).split('.')[0] for a in n.names}
+        mod_names = getattr(self.repo, 'module_names', None)
+        seen = set()
+        for group in list(con.loops.values()) + list(con.asserts.values()):
+            for c in group:
+                try:
+                    tree = ast.parse(c.src.strip(), mode='eval')
+                except SyntaxError:
+                    continue
+                called = {id(n.func) for n in ast.walk(tree) if isinstance(n, ast.Call)}
+                bound = {n.args[0].id for n in ast.walk(tree) if isinstance(n, ast.Call) and isinstance(n.func, ast.Name) and n.func.id in ('forall', 'exists')
+                         and n.args and isinstance(n.args[0], ast.Name)}
+                for n in ast.walk(tree):
+                    if isinstance(n, ast.Name) and id(n) not in called and n.id not in known and n.id not in bound and not n.id.endswith('_') and n.id not in seen:
+                        if mod_names is not None and n.id in mod_names:
+                            continue
+                        seen.add(n.id)
+                        out.append('local %s' % n.id)
         return out
 
     def check_frame(self, con, st, old, lab, ln):
